@@ -40,6 +40,7 @@ class Ctx:
         self.excluded: list[str] = []
         self.sample: Any = None
         self.sub_evaluations = 0
+        self.case_override: Any = None   # a derived, directly replayable case (e.g. the input a fuzzing campaign found)
 
     def violation(self, clause: str, site: dict, detail: str = "") -> None:
         self.violations.append({"clause": clause, "site": site, "detail": str(detail)[:1500]})
